@@ -104,4 +104,22 @@ Proof.
       destruct ((match pkw with [] => ret [] | (_, a) :: _ => _ end) st1) as [[ks|e|u|] st2]; try reflexivity.
       apply IH. exact Ht.
 Qed.
+
+(* ---------- star parts: the kwargs / args spec is evaluated whenever it is given (whatever the spec object looks like to
+   Python's truth test) and contributes exactly the mapping / sequence it evaluates to, spliced in where the part stands ---------- *)
+Lemma invoke_star_kwargs_lemma sc t : forall tag name a r accA accK st i od kvs f st1 l,
+  2 <= tag -> rec sc t a st = (Ok (VDict i od kvs, f), st1) -> kw_of_dict kvs = Some l ->
+  invoke_loop rec sc t ((tag, [], [(name, a)]) :: r) accA accK st = invoke_loop rec sc t r accA (kw_update accK l) st1.
+Proof.
+  intros tag name a r accA accK st i od kvs f st1 l Htag Hrec Hkw.
+  destruct tag as [|[|tag]]; try lia. cbn [invoke_loop]. unfold bindM, ret. rewrite Hrec, Hkw, app_nil_r. reflexivity.
+Qed.
+Lemma invoke_star_args_lemma sc t : forall tag a r accA accK st i xs f st1,
+  2 <= tag -> rec sc t a st = (Ok (VList i xs, f), st1) ->
+  invoke_loop rec sc t ((tag, [a], []) :: r) accA accK st = invoke_loop rec sc t r (accA ++ xs) accK st1.
+Proof.
+  intros tag a r accA accK st i xs f st1 Htag Hrec.
+  destruct tag as [|[|tag]]; try lia. cbn [invoke_loop]. unfold bindM, ret. rewrite Hrec. reflexivity.
+Qed.
+
 End Invoke.
